@@ -33,6 +33,7 @@ type c12Cfg struct {
 	PX        bool   `json:"px"`
 	Ext       bool   `json:"extensions"`
 	MaxSize   int    `json:"max_size"` // max message size (0 default)
+	Vals      bool   `json:"validators,omitempty"` // two more asynchronous validators: a quick one that rejects short payloads, a slow one with one slot
 }
 
 // a hostile RPC as data: every field drawn from pools of nasty values
@@ -89,6 +90,7 @@ func c12Gen(rt *rapid.T) c12Case {
 	c.Cfg = c12Cfg{Router: rapid.SampledFrom([]string{"gossipsub", "gossipsub", "floodsub", "randomsub"}).Draw(rt, "router"), Seqno: rapid.Bool().Draw(rt, "seqno"),
 		Filter: rapid.IntRange(0, 2).Draw(rt, "filter"), Policy: rapid.IntRange(0, 3).Draw(rt, "policy"), Score: rapid.Bool().Draw(rt, "score"),
 		Gater: rapid.Bool().Draw(rt, "gater"), PX: rapid.Bool().Draw(rt, "px"), Ext: rapid.Bool().Draw(rt, "ext"), MaxSize: rapid.SampledFrom([]int{0, 0, 256, 4096}).Draw(rt, "maxsize")}
+	c.Cfg.Vals = rapid.IntRange(0, 2).Draw(rt, "vals") == 0
 	n := rapid.IntRange(1, 10).Draw(rt, "nrpcs")
 	for i := 0; i < n; i++ {
 		r := c12RPCSpec{Sender: rapid.SampledFrom([]int{1, 1, 2, 3, 4, 5}).Draw(rt, "sender")}
@@ -347,6 +349,16 @@ func c12NewNode(t *testing.T, cfg c12Cfg) (*c12Node, error) {
 			return inner(ctx, p, m)
 		}))
 	}
+	if cfg.Vals {
+		// an expensive application validator with a single slot, next to the quick topic validator registered below
+		opts = append(opts, WithDefaultValidator(func(ctx context.Context, _ peer.ID, _ *Message) ValidationResult {
+			select {
+			case <-time.After(5 * time.Millisecond):
+			case <-ctx.Done():
+			}
+			return ValidationAccept
+		}, WithValidatorConcurrency(1)))
+	}
 	switch cfg.Filter {
 	case 1:
 		opts = append(opts, WithSubscriptionFilter(NewAllowlistSubscriptionFilter(topics...)))
@@ -360,7 +372,7 @@ func c12NewNode(t *testing.T, cfg c12Cfg) (*c12Node, error) {
 				BehaviourPenaltyWeight: -0.001, BehaviourPenaltyDecay: 0.5, Topics: map[string]*TopicScoreParams{topics[0]: tsp}},
 				&PeerScoreThresholds{GossipThreshold: -1e9, PublishThreshold: -1e9, GraylistThreshold: -1e9, AcceptPXThreshold: 0}))
 		}
-		if cfg.Gater {
+		if cfg.Gater && !cfg.Vals { // (the gater answers legitimately throttled validations with random drops)
 			opts = append(opts, WithPeerGater(NewPeerGaterParams(.1, .9, .999)))
 		}
 		opts = append(opts, WithPeerExchange(cfg.PX))
@@ -377,6 +389,17 @@ func c12NewNode(t *testing.T, cfg c12Cfg) (*c12Node, error) {
 		return nil, err
 	}
 	cn := &c12Node{n: n, valPanic: &valPanics, mu: &mu, seq: 800}
+	if cfg.Vals {
+		if err := n.ps.RegisterTopicValidator(topics[0], func(_ context.Context, _ peer.ID, m *Message) ValidationResult {
+			if l := len(m.Data); l <= 1 || l == 100 {
+				return ValidationReject
+			}
+			return ValidationAccept
+		}); err != nil {
+			n.close()
+			return nil, err
+		}
+	}
 	var to []TopicOpt
 	if cfg.Router == "gossipsub" && cfg.Ext {
 		to = append(to, RequestPartialMessages())
@@ -417,6 +440,9 @@ func (cn *c12Node) probe(res *vfResult, step int, cfg c12Cfg, what string) {
 	}
 	// a flood may legitimately be throttled (validation queue of 32, subscription buffer of 32): let the pipeline drain and
 	// empty the subscription before the honest message is sent, so that only a node that stopped working loses it
+	if cfg.Vals {
+		time.Sleep(20 * time.Millisecond) // the one-slot validator finishes what it has in hand
+	}
 	synctest.Wait()
 	for len(cn.sub.ch) > 0 {
 		<-cn.sub.ch
@@ -520,6 +546,9 @@ func c12RunInBubble(t *testing.T, c c12Case, res *vfResult) {
 	}
 	res.NT = reached
 	res.label("router:" + c.Cfg.Router)
+	if c.Cfg.Vals {
+		res.label("three-validators")
+	}
 }
 
 func TestVfC12Hostile(t *testing.T) {
